@@ -230,7 +230,7 @@ fn exec_hash(sc: &Scenario) -> Outcome {
             if maps >= 2 {
                 stats.seen(
                     "nontrivial",
-                    Digest::new().u64(shape).u64(*sw as u64).u64(*h).finish(),
+                    Digest::new().u64(shape).u64(*sw as u64).finish(),
                 );
             }
             tree_probes(&a, &mut stats);
